@@ -656,22 +656,33 @@ class FilterContextPath(Path):
         env = self.path.env
         return env.filter_context_token + str(self.path)[len(env.root_token) :]
 
-    def evaluate(self, context: FilterContext) -> object:
-        return NodeList(
-            self.path.finditer(
-                context.extra_context, filter_context=context.extra_context
-            )
-        )
-
-    async def evaluate_async(self, context: FilterContext) -> object:
+    def _context_node(self, context: FilterContext) -> NodeList:
+        # A node list containing just the extra context data. The query argument
+        # stays the root, so `$` in nested filters still refers to the document.
         return NodeList(
             [
-                match
-                async for match in await self.path.finditer_async(
-                    context.extra_context, filter_context=context.extra_context
+                context.env.match_class(
+                    filter_context=context.extra_context,
+                    obj=context.extra_context,
+                    parent=None,
+                    path=context.env.root_token,
+                    parts=(),
+                    root=context.root,
                 )
             ]
         )
+
+    def evaluate(self, context: FilterContext) -> object:
+        matches: Iterable[JSONPathMatch] = self._context_node(context)
+        for selector in self.path.selectors:
+            matches = selector.resolve(matches)
+        return NodeList(matches)
+
+    async def evaluate_async(self, context: FilterContext) -> object:
+        matches: AsyncIterable[JSONPathMatch] = _alist(self._context_node(context))
+        for selector in self.path.selectors:
+            matches = selector.resolve_async(matches)
+        return NodeList([match async for match in matches])
 
 
 class FunctionExtension(FilterExpression):
